@@ -83,6 +83,7 @@ def units(tier):
             rot += 1
             us.append(dict(h="edit", prog=p, edit=edit, of=name, start=start, end=end, std="f2008" if (f08 or rot % 2) else "f2003", cost=1))
         if name in NAMED_END:
+            us.append(dict(h="edit", prog=p, edit="rename_end", of=name, start=start, end=end, std="f2008", cm=True, cost=3))
             rot += 1
             us.append(dict(h="edit", prog=p, edit="rename_end", of=name, start=start, end=end, std="f2008" if (f08 or rot % 2) else "f2003", cost=3))
     # --- contained / external subprogram END edits
@@ -94,6 +95,8 @@ def units(tier):
             if w[0] == "end" and len(w) >= 3:
                 rot += 1
                 us.append(dict(h="edit", prog=p, edit="rename_end", of=unit + ":" + w[1], start=0, end=i, std="f2003", cost=3))
+                # same with comments retained and a comment line in front of every opening statement
+                us.append(dict(h="edit", prog=p, edit="rename_end", of=unit + ":" + w[1], start=0, end=i, std="f2008", cm=True, cost=3))
                 us.append(dict(h="edit", prog=p, edit="del_end", of=unit + ":" + w[1], start=0, end=i, std="f2008", cost=1))
             if w[0] in ("subroutine", "function") and i > 0:
                 us.append(dict(h="edit", prog=p, edit="del_open", of=unit + ":" + w[0], start=i, end=i, std="f2003", cost=1))
@@ -123,9 +126,26 @@ def meta(tier):
                 budget_s=300, unit_budget_s=60, witness_every=3)
 
 
+OPENERS = ("subroutine", "function", "module", "program", "type", "interface", "if", "do", "select", "block", "associate", "critical", "enum")
+
+
+def _with_comments(text):
+    out = []
+    for l in text.split("\n"):
+        w = l.strip().split(" ")
+        if w[0] in OPENERS or (len(w) > 1 and w[0][-1:] == ":"):
+            out.append("! about to open " + w[0])
+        out.append(l)
+    return "\n".join(out)
+
+
 def _rejected(ctx, text, std, what):
+    ic = True
+    if ctx.p.get("cm"):
+        text = _with_comments(text)
+        ic = False
     ctx.observe("src", text)
-    r = C.outcome(lambda: str(C.parse(text, std, True)))
+    r = C.outcome(lambda: str(C.parse(text, std, ic)))
     ctx.observe("outcome", r[0])
     ctx.check(r[0] != "ok", what)
 
